@@ -1533,3 +1533,29 @@ func nilResultImplies(h *ssa.Function, pred func(*Path) bool) bool {
 	}
 	return n > 0
 }
+
+// forwardTarget: fn is a closure with a single block whose only call is a static call of a function of the same package
+// (func() { t.expired(cb) }): returns that function.
+func forwardTarget(fn *ssa.Function) *ssa.Function {
+	if fn == nil || fn.Parent() == nil || len(fn.Blocks) != 1 {
+		return nil
+	}
+	var only *ssa.Call
+	n := 0
+	for _, in := range fn.Blocks[0].Instrs {
+		switch x := in.(type) {
+		case *ssa.Call:
+			n++
+			only = x
+		case *ssa.Store, *ssa.Go, *ssa.Defer, *ssa.MapUpdate, *ssa.Send:
+			return nil
+		}
+	}
+	if n != 1 || only.Call.StaticCallee() == nil || only.Call.StaticCallee().Blocks == nil {
+		return nil
+	}
+	if fnTypesPkg(only.Call.StaticCallee()) != fnTypesPkg(fn) {
+		return nil
+	}
+	return only.Call.StaticCallee()
+}
